@@ -28,6 +28,8 @@ FAMS = [
  ("dec",   ["dec", "-per", 1], "Trace_Decimal", "Trace_Decimal.cfg", {}, "Fmt", "text", lambda e: True),
  ("dsn",   ["dsn", "-count", 30, "-maxlen", 2], "Trace_Dsn", "Trace_Dsn.cfg", {}, "RT", "out", lambda e: True),
  ("wire",  ["wire", "-count", 2], "Trace_Wire", "Trace_Wire.cfg", {"JUDGE":"C06"}, "Pkg", "wbytes", lambda e: e["w"]=="ok"),
+ ("term",  ["term", "-maxlen", 3, "-count", 50], "Trace_TermSplit", "Trace_TermSplit.cfg", {}, "Split", "queries", lambda e: len(e["queries"])>0 and len(e["queries"][0])>0),
+ ("ver",   ["ver", "-count", 50], "Trace_TdsVersion", "Trace_TdsVersion.cfg", {}, "Cmp", "out", lambda e: True),
  ("dt-c05", ["dt"], "Trace_DataTypes", "Trace_DataTypes.cfg", {"JUDGE":"C05"}, "RT", "b", lambda e: len(e["b"])>0 and e["t"] in ("INT8","MONEY","DATETIME","BIGDATETIMEN","NUMN","FLT8")),
  ("dt-c04", ["dt"], "Trace_DataTypes", "Trace_DataTypes.cfg", {"JUDGE":"C04"}, "Pkg", "v2", lambda e: e["v2"].get("k")=="int"),
  ("dt-cal", ["dt"], "Trace_DataTypes", "Trace_DataTypes.cfg", {"JUDGE":"C05"}, "Cal", "b", lambda e: True),
